@@ -4,22 +4,120 @@ package mapping
 
 import (
 	"encoding/json"
+	"math"
 	"reflect"
+	"sort"
+	"strconv"
 	"testing"
 
 	"github.com/gotid/god/internal/verifdrv"
 	"github.com/gotid/god/internal/verifdrv/c05shape"
+	"github.com/gotid/god/lib/jsonx"
 )
 
 type verifCase struct {
+	Shape   c05shape.Shape `json:"shape"`
+	JSON    string         `json:"json"`
+	YAML    string         `json:"yaml"`
+	StrMode bool           `json:"strmode"` // also unmarshal with WithStringValues() (the form/path/header unmarshalers)
+	Float   string         `json:"float"`   // a number token: JSON and YAML routes into float32/float64, bit patterns
+	Marshal *verifMarshal  `json:"marshal"` // direct Marshal of a generated struct value
+}
+
+type verifMarshal struct {
 	Shape c05shape.Shape `json:"shape"`
-	JSON  string         `json:"json"`
-	YAML  string         `json:"yaml"`
+	Value any            `json:"value"`
+}
+
+type verifF32 struct {
+	V float32 `json:"v"`
+}
+
+type verifF64 struct {
+	V float64 `json:"v"`
+}
+
+func verifBits(err error, x float64) any {
+	if err != nil {
+		return nil
+	}
+	return strconv.FormatUint(math.Float64bits(x), 10)
+}
+
+// verifFloat sends the token through the JSON and the YAML front-end into a float32 and a float64 field and
+// reports math.Float64bits of the results next to strconv.ParseFloat(token, bitsize) as oracle.
+func verifFloat(tok string) map[string]any {
+	out := map[string]any{}
+	doc, ydoc := []byte(`{"v":`+tok+`}`), []byte("v: "+tok+"\n")
+	for _, bits := range []int{32, 64} {
+		res := map[string]any{}
+		run := func(name string, f func(v any) error) {
+			var a verifF32
+			var b verifF64
+			var err error
+			var x float64
+			panicked, pv := verifdrv.Catch(func() {
+				if bits == 32 {
+					err = f(&a)
+					x = float64(a.V)
+				} else {
+					err = f(&b)
+					x = b.V
+				}
+			})
+			if panicked {
+				res[name] = "panic: " + pv
+				return
+			}
+			res[name] = verifBits(err, x)
+		}
+		run("j", func(v any) error { return UnmarshalJsonBytes(doc, v) })
+		run("y", func(v any) error { return UnmarshalYamlBytes(ydoc, v) })
+		o, err := strconv.ParseFloat(tok, bits)
+		res["o"] = verifBits(err, o)
+		out[strconv.Itoa(bits)] = res
+	}
+	return out
+}
+
+// verifMarshalRun fills a value of the shape and calls Marshal; the parts are rendered canonically, sorted.
+func verifMarshalRun(m *verifMarshal) map[string]any {
+	var typ reflect.Type
+	if panicked, pv := verifdrv.Catch(func() { typ = m.Shape.Build() }); panicked {
+		return map[string]any{"error": "shape: " + pv}
+	}
+	v := reflect.New(typ)
+	if err := c05shape.Fill(v.Elem(), m.Value); err != nil {
+		return map[string]any{"error": err.Error()}
+	}
+	var res map[string]map[string]any
+	var err error
+	panicked, pv := verifdrv.Catch(func() { res, err = Marshal(v.Interface()) })
+	switch {
+	case panicked:
+		return map[string]any{"r": "panic", "msg": pv}
+	case err != nil:
+		return map[string]any{"r": "err", "msg": err.Error()}
+	}
+	rows := make([][]any, 0)
+	for tag, part := range res {
+		for key, val := range part {
+			rows = append(rows, []any{tag, key, c05shape.Dump(reflect.ValueOf(val))})
+		}
+	}
+	sort.Slice(rows, func(i, j int) bool {
+		if rows[i][0].(string) != rows[j][0].(string) {
+			return rows[i][0].(string) < rows[j][0].(string)
+		}
+		return rows[i][1].(string) < rows[j][1].(string)
+	})
+	return map[string]any{"r": "ok", "rows": rows, "orig": c05shape.Dump(v.Elem())}
 }
 
 // TestVerifDriver materialises the struct shape of every case and unmarshals the JSON text (and, when
-// given, the YAML text) into a fresh zero value of it.
+// given, the YAML text) into a fresh zero value of it; optional extra modes see verifCase.
 func TestVerifDriver(t *testing.T) {
+	strUnmarshaler := NewUnmarshaler(jsonTagKey, WithStringValues())
 	verifdrv.Run(t, func(raw json.RawMessage) any {
 		var c verifCase
 		if err := json.Unmarshal(raw, &c); err != nil {
@@ -32,6 +130,21 @@ func TestVerifDriver(t *testing.T) {
 		out := map[string]any{"j": c05shape.RunInto(typ, func(v any) error { return UnmarshalJsonBytes([]byte(c.JSON), v) })}
 		if c.YAML != "" {
 			out["y"] = c05shape.RunInto(typ, func(v any) error { return UnmarshalYamlBytes([]byte(c.YAML), v) })
+		}
+		if c.StrMode {
+			out["s"] = c05shape.RunInto(typ, func(v any) error {
+				var m map[string]any
+				if err := jsonx.Unmarshal([]byte(c.JSON), &m); err != nil {
+					return err
+				}
+				return strUnmarshaler.Unmarshal(m, v)
+			})
+		}
+		if c.Float != "" {
+			out["f"] = verifFloat(c.Float)
+		}
+		if c.Marshal != nil {
+			out["m"] = verifMarshalRun(c.Marshal)
 		}
 		return out
 	})
